@@ -329,12 +329,12 @@ theorem k3bAt_of {tr : Trace} {endT : Int} {h ty : Nat} {tb t e : Int} {s : Svc}
       · simp [hyh]
   · exact hk
 
-theorem refreshWindow_early {t e tb : Int} (h : tb ≤ t + 750 * e) (second : Bool) :
+theorem refreshWindow_early {t e tb : Int} (h : tb + 120 + 14000 + 10000 ≤ t + 750 * e) (second : Bool) :
     refreshWindow Cfg.paper t e tb second
-      = (t + (if second then 850 else 750) * e - 10000 - 999, t + (if second then 850 else 750) * e + 25000) := by
+      = (t + (if second then 850 else 750) * e - 10000 - 999, t + (if second then 850 else 750) * e + 30000) := by
   simp [refreshWindow, h]
 
-theorem refreshWindow_late {t e tb : Int} (h : ¬ tb ≤ t + 750 * e) (second : Bool) :
+theorem refreshWindow_late {t e tb : Int} (h : ¬ tb + 120 + 14000 + 10000 ≤ t + 750 * e) (second : Bool) :
     refreshWindow Cfg.paper t e tb second
       = (tb + 20 + (if second then 14000 else 5000) - 999, tb + 120 + (if second then 14000 else 5000)) := by
   cases second <;> simp [refreshWindow, h]
